@@ -302,7 +302,7 @@ def cxx_leg(tier, seed, out: Outcome, prop='C15'):
     descs = corpus.corpus(tier, seed, families=['F6', 'R'], backend='rust')
     descs = [d for d in descs if d.family == 'F6'] + [d for d in descs if d.family == 'R']
     if tier == 'quick':
-        descs = [d for d in descs if d.family == 'R' or any(d.id.startswith(f'f6_w{w}_') for w in (1, 2, 3, 7, 8, 9, 16, 32, 63, 64))]
+        descs = [d for d in descs if d.family == 'R' or any(d.id.startswith(f'f6_w{w}_') for w in (1, 2, 3, 7, 8, 9, 16, 24, 32, 40, 63, 64))]
     for d in descs:
         if d.family == 'R':
             # the canonical file as the repo's C++ test uses it needs custom-field headers; only its enums matter here
